@@ -174,6 +174,9 @@ class C03(Property):
     id = "C03"
     title = "Exported native value re-imports to an equal element"
     proof_module = "Proofs.C03"
+    level_text = 'Lean 4 theorem `reimport`: if set(x) returned True then set(e.value) on a fresh element returns True and rebuilds the same state (Dict/SparseDict under every policy, List/Array, leaf-likes), under leaf idempotence (C04/C18); negation witness without it.'
+    level_note = "Trusted: Lean kernel + 3 standard axioms; model Flatland/C03.lean tied by correspondence; what scalars/JoinedString/DateYYYYMMDD make of a native is an input table computed from the real classes in isolation; MultiValue excluded by the property; 'strict' policy on SparseDicts outside the quantifier."
+    technique = 'Lean 4 proof (growth invariant of Dict.set + rebuild lemma); differential correspondence; Python oracle'
     theorems = [
         "Flatland.C03.Proofs.reimport",
         "Flatland.C03.Proofs.reimport_value",
